@@ -759,65 +759,81 @@ func TestVerifC09(t *testing.T) {
 		seen[sha1.Sum([]byte(k0))] = true
 		frontier := []node{{nil, en0}}
 		depth := 0
-		for len(frontier) > 0 {
-			if time.Now().After(deadline) {
-				exhaustive = false
-				break
-			}
+		// levels are processed in chunks (bounded memory, deadline and state cap checked between chunks); workers return
+		// the digest of the state key, not the key
+		const chunk = 20000
+		maxStates := 400000
+		if vrt.Thorough() {
+			maxStates = 2500000
+		}
+		stopped := false
+		for len(frontier) > 0 && !stopped {
 			depth++
 			var next []node
-			type item struct {
-				path []string
-			}
-			var items []item
-			for _, nd := range frontier {
-				for _, a := range nd.enabled {
-					items = append(items, item{append(append([]string(nil), nd.path...), a)})
-				}
-			}
-			type outT struct {
-				k    string
-				en   []string
-				viol []vfViolation
-				err  error
-			}
-			outs := make([]outT, len(items))
-			var wg sync.WaitGroup
-			ch := make(chan int, 1024)
-			for w := 0; w < vrt.Workers(); w++ {
-				wg.Add(1)
-				go func() {
-					defer wg.Done()
-					for i := range ch {
-						k, en, viol, err := vfRunC09(vfC09Job{Cfg: cfg, Path: items[i].path})
-						outs[i] = outT{k, en, viol, err}
-					}
-				}()
-			}
-			for i := range items {
-				ch <- i
-			}
-			close(ch)
-			wg.Wait()
-			for i, o := range outs {
-				p := items[i].path
-				transitions++
-				if o.err != nil {
-					res.Set("harness_error", o.err.Error())
+			fi, ai := 0, 0 // position in the frontier: node index, action index
+			for fi < len(frontier) && !stopped {
+				if time.Now().After(deadline) || len(seen) > maxStates {
 					exhaustive = false
-					continue
+					stopped = true
+					break
 				}
-				for _, v := range o.viol {
-					res.Violate(v.Signature, fmt.Sprintf("%d instances, %d shard(s), actions %v: %s", cfg.N, cfg.Shards, p, v.Detail), vfC09Job{Cfg: cfg, Path: p})
+				var items [][]string
+				for fi < len(frontier) && len(items) < chunk {
+					nd := frontier[fi]
+					for ai < len(nd.enabled) && len(items) < chunk {
+						items = append(items, append(append([]string(nil), nd.path...), nd.enabled[ai]))
+						ai++
+					}
+					if ai >= len(nd.enabled) {
+						fi, ai = fi+1, 0
+					}
 				}
-				h := sha1.Sum([]byte(o.k))
-				if seen[h] {
-					continue
+				type outT struct {
+					h    [20]byte
+					en   []string
+					viol []vfViolation
+					err  error
 				}
-				seen[h] = true
-				next = append(next, node{p, o.en})
+				outs := make([]outT, len(items))
+				var wg sync.WaitGroup
+				ch := make(chan int, 1024)
+				for w := 0; w < vrt.Workers(); w++ {
+					wg.Add(1)
+					go func() {
+						defer wg.Done()
+						for i := range ch {
+							k, en, viol, err := vfRunC09(vfC09Job{Cfg: cfg, Path: items[i]})
+							outs[i] = outT{sha1.Sum([]byte(k)), en, viol, err}
+						}
+					}()
+				}
+				for i := range items {
+					ch <- i
+				}
+				close(ch)
+				wg.Wait()
+				for i, o := range outs {
+					p := items[i]
+					transitions++
+					if o.err != nil {
+						res.Set("harness_error", o.err.Error())
+						exhaustive = false
+						continue
+					}
+					for _, v := range o.viol {
+						res.Violate(v.Signature, fmt.Sprintf("%d instances, %d shard(s), actions %v: %s", cfg.N, cfg.Shards, p, v.Detail), vfC09Job{Cfg: cfg, Path: p})
+					}
+					if seen[o.h] {
+						continue
+					}
+					seen[o.h] = true
+					next = append(next, node{p, o.en})
+				}
 			}
 			frontier = next
+		}
+		if stopped {
+			summary = append(summary, fmt.Sprintf("%+v: stopped at depth %d (deadline or state cap %d)", cfg, depth, maxStates))
 		}
 		states += int64(len(seen))
 		summary = append(summary, fmt.Sprintf("%+v: %d states, depth %d", cfg, len(seen), depth))
